@@ -236,7 +236,8 @@ struct Ran {
 }
 
 fn run_process(c: &CliCheck, serial: u64) -> Ran {
-    let dir = std::env::temp_dir().join(format!("simcli-{}-{}", std::process::id(), serial));
+    // named after the parent so that it can sweep what a killed worker leaves behind
+    let dir = std::env::temp_dir().join(format!("simcli-{}-{}-{}", unsafe { libc::getppid() }, std::process::id(), serial));
     let _ = std::fs::remove_dir_all(&dir);
     std::fs::create_dir_all(&dir).unwrap_or_else(|_| crate::parent::harness_error("cannot create temp dir"));
     for (n, k) in &c.files {
@@ -254,13 +255,26 @@ fn run_process(c: &CliCheck, serial: u64) -> Ran {
     let fd = stdin_file.as_raw_fd();
     let out_path = dir.join("stdout.bin");
     let err_path = dir.join("stderr.bin");
-    let mut child = Command::new(hpbf_bin())
+    let mut child = Command::new(hpbf_bin());
+    child
         .args(&c.argv)
         .current_dir(&dir)
         .stdin(Stdio::from(stdin_file.try_clone().unwrap()))
         .stdout(Stdio::from(std::fs::File::create(&out_path).unwrap()))
         .stderr(Stdio::from(std::fs::File::create(&err_path).unwrap()))
-        .env("RUST_BACKTRACE", "0")
+        .env("RUST_BACKTRACE", "0");
+    // a broken binary must not be able to fill the disk or burn CPU for long
+    unsafe {
+        use std::os::unix::process::CommandExt;
+        child.pre_exec(|| {
+            let fsize = libc::rlimit { rlim_cur: 8 << 20, rlim_max: 8 << 20 };
+            libc::setrlimit(libc::RLIMIT_FSIZE, &fsize);
+            let cpu = libc::rlimit { rlim_cur: 10, rlim_max: 12 };
+            libc::setrlimit(libc::RLIMIT_CPU, &cpu);
+            Ok(())
+        });
+    }
+    let mut child = child
         .spawn()
         .unwrap_or_else(|e| crate::parent::harness_error(&format!("cannot run {:?}: {}", hpbf_bin(), e)));
     let t0 = Instant::now();
@@ -269,7 +283,7 @@ fn run_process(c: &CliCheck, serial: u64) -> Ran {
         match child.try_wait() {
             Ok(Some(s)) => break Some(s),
             Ok(None) => {
-                if t0.elapsed() > Duration::from_secs(20) {
+                if t0.elapsed() > Duration::from_secs(8) {
                     hang = true;
                     let _ = child.kill();
                     let _ = child.wait();
@@ -405,7 +419,7 @@ pub fn evaluate(c: &CliCheck) -> Verdict {
     let ran = run_process(c, serial);
     v.executions += 1;
     if ran.hang {
-        v.fail("hang", 0, "hpbf did not exit within 20 s".into());
+        v.fail("hang", 0, "hpbf did not exit within 8 s".into());
         return v;
     }
     let mut out = ran.stdout.clone();
@@ -513,19 +527,19 @@ pub fn generate(rng: &mut Rng, prop: &str, corpus: &[String]) -> CliCheck {
     for _ in 0..rng.below(3) {
         flags.push(rng.pick(&levels).to_string());
     }
-    let mode = rng.below(20);
-    if mode < 3 {
+    // independent choices, so that combinations (e.g. --static with --limit) occur
+    if rng.chance(3, 20) {
         flags.push(rng.pick(&["--print-ir", "--print-bc", "--print-jit-bc", "--print-jit-mc"]).to_string());
     }
-    let with_limit = mode >= 3 && mode < 7;
-    if mode == 7 {
+    let with_limit = rng.chance(5, 20);
+    if rng.chance(1, 12) {
         flags.push("--static".into());
         flags.retain(|f| !f.starts_with("-i"));
     }
-    if mode == 8 {
+    if rng.chance(1, 20) {
         flags.push("--time".into());
     }
-    if mode == 9 {
+    if rng.chance(1, 30) {
         flags.push("-h".into());
     }
     // code
